@@ -13,7 +13,7 @@ Local Open Scope Z_scope.
    "before any resource"; C13 does not ask for that outside the eight types.) *)
 Lemma redirect_init_out_of_range parent child stream rd nb out :
   ~ type_in_range (rd_type rd) ->
-  redirect_init parent child stream rd nb out = ret (REPROC_EINVAL, parent, child).
+  redirect_init parent child stream rd nb out = ret (REPROC_EINVAL, parent, child, rd).
 Proof.
   unfold type_in_range, REPROC_REDIRECT_DEFAULT, REPROC_REDIRECT_PATH. intros H.
   unfold redirect_init, REPROC_REDIRECT_PIPE, REPROC_REDIRECT_PARENT, REPROC_REDIRECT_DISCARD,
